@@ -21,6 +21,7 @@ func ruleC02(prog *Program, rep *Report) {
 	ruleSurrogates(prog, rep)
 	ruleBigLimitAgree(prog, rep)
 	ruleFillOnce(prog, rep)
+	ruleBufView(prog, rep, 20, "oj", "gen", "sen")
 	ruleBufAlias(prog, rep, append(append([]feSpec{}, jsonFrontEnds...), senFrontEnds...)...)            // a string that is a view of the read buffer changes when the next chunk is read
 	ruleArmTwinsAll(prog, rep, false)                                                                    // counters and cursors the exploration keeps abstract
 	ruleBOM(prog, rep)                                                                                   // bytes dropped before the dispatch loop sees them change the values
